@@ -18,9 +18,11 @@ import (
 type c19Setup struct {
 	w          *world.World
 	x, y, z    world.PodSpec
-	tk, tu     world.PodSpec // pods of a scalable CRD kind / of a kind no CRD describes
-	rg         world.PodSpec // a pod that requests IP ranges
-	d1         world.PodSpec // replacement pod of a deployment with a reserved IP
+	tk, tu     world.PodSpec            // pods of a scalable CRD kind / of a kind no CRD describes
+	crdOld     map[string][]world.Event // pending delete events of bound pods of the custom kinds
+	tf         world.PodSpec            // pod of a second scalable CRD kind that nothing has asked about yet (no informer started for it)
+	rg         world.PodSpec            // a pod that requests IP ranges
+	d1         world.PodSpec            // replacement pod of a deployment with a reserved IP
 	zOld       []world.Event
 	dpReserve  bool
 	altConfig  string
@@ -54,6 +56,31 @@ func c19Prepare(w *world.World) *c19Setup {
 	s.tu = world.PodSpec{Name: "f-0", NS: "ns", OwnerKind: "Frob", OwnerName: "f", Policy: "immutable"}
 	w.CreatePod(s.tk)
 	w.CreatePod(s.tu)
+	w.AddCRD("TJob", "apps.tkestack.io", "v1", "tjobs")
+	s.tf = world.PodSpec{Name: "j-0", NS: "ns", OwnerKind: "TJob", OwnerName: "j", Policy: "immutable"}
+	w.CreatePod(s.tf)
+	// the pods of both custom kinds are bound and deleted: handling their delete events asks the CRD cache for the replicas of
+	// their apps (for TApp it has been asked before, for TJob never)
+	s.crdOld = map[string][]world.Event{}
+	for _, ps := range []world.PodSpec{{Name: "t-1", NS: "ns", OwnerKind: "TApp", OwnerName: "t", Policy: "immutable"}, {Name: "j-1", NS: "ns", OwnerKind: "TJob", OwnerName: "j", Policy: "immutable"}} {
+		w.CreatePod(ps)
+		if _, err := w.Schedule(ps.Key()); err != nil {
+			continue
+		}
+		takePending(w)
+		w.DeletePod(ps.Key())
+		s.crdOld[ps.OwnerKind] = takePending(w)
+	}
+	if evs := s.crdOld["TApp"]; len(evs) > 0 {
+		// warm the cache for TApp with the delete event of a further pod
+		ps := world.PodSpec{Name: "t-2", NS: "ns", OwnerKind: "TApp", OwnerName: "t", Policy: "immutable"}
+		w.CreatePod(ps)
+		if _, err := w.Schedule(ps.Key()); err == nil {
+			takePending(w)
+			w.DeletePod(ps.Key())
+			deliverAll(w, takePending(w))()
+		}
+	}
 	s.rg = world.PodSpec{Name: "r-0", NS: "ns", OwnerKind: "StatefulSet", OwnerName: "r", Ranges: `[["10.10.1.1~10.10.1.2","10.10.2.1~10.10.2.2"]]`}
 	w.SetStatefulSet("ns", "r", 1)
 	w.CreatePod(s.rg)
@@ -90,13 +117,17 @@ func c19Entries(s *c19Setup) map[string]func() {
 		// no CRD describes is never cached and re-populates the cache on every request)
 		"filter-crd-known":   func() { _, _ = w.Filter(s.tk.Key()) },
 		"filter-crd-unknown": func() { _, _ = w.Filter(s.tu.Key()) },
-		"bind":               func() { _ = w.Bind("ns", s.y.Name, string(py.UID), "n1") },
-		"unbind":             func() { deliverAll(w, s.zOld)() },
-		"resync":             func() { _ = w.Resync(); w.SyncPodIPs() },
-		"release":            func() { _, l := w.APIList("size=100"); w.APIRelease(l.Content) },
-		"list":               func() { _, _ = w.APIList("keyword=a&size=2&page=1") },
-		"pool":               func() { w.PoolPost("pl", 2, true) },
-		"reload":             func() { w.ConfigMap = s.altConfig; _ = w.Reload() },
+		// the first request ever for a kind a CRD describes: its key is cached and its informer started
+		"filter-crd-fresh": func() { _, _ = w.Filter(s.tf.Key()) },
+		"unbind-crd-known": func() { deliverAll(w, s.crdOld["TApp"])() },
+		"unbind-crd-fresh": func() { deliverAll(w, s.crdOld["TJob"])() },
+		"bind":             func() { _ = w.Bind("ns", s.y.Name, string(py.UID), "n1") },
+		"unbind":           func() { deliverAll(w, s.zOld)() },
+		"resync":           func() { _ = w.Resync(); w.SyncPodIPs() },
+		"release":          func() { _, l := w.APIList("size=100"); w.APIRelease(l.Content) },
+		"list":             func() { _, _ = w.APIList("keyword=a&size=2&page=1") },
+		"pool":             func() { w.PoolPost("pl", 2, true) },
+		"reload":           func() { w.ConfigMap = s.altConfig; _ = w.Reload() },
 		"collect": func() {
 			ch := make(chan prometheus.Metric, 64)
 			w.Plugin.GetIpam().Collect(ch)
@@ -159,7 +190,9 @@ func c19IPAMScenarios(tier string) []*Scenario {
 		}
 	}
 	for _, pr := range [][]string{{"filter-dp-replacement", "release"}, {"filter-dp-replacement", "resync"}, {"filter-dp-replacement", "list"}, {"filter-ranges", "bind"}, {"filter-ranges", "unbind"}, {"filter-ranges", "reload"}, {"filter-ranges", "release"}, {"filter-ranges", "filter-ranges"}, {"preempt-z", "unbind"}, {"preempt-z", "resync"}, {"preempt-z", "release"}, {"preempt-z", "reload"}, {"filter-z", "unbind"}, {"filter-z", "resync"}, {"filter-z", "release"}, {"filter-y", "bind"}, {"filter-y", "update-running"}, {"filter-crd-known", "filter-crd-unknown"}, {"filter-crd-unknown", "filter-crd-unknown"}, {"filter-crd-known", "filter-crd-known"},
-		{"filter-crd-unknown", "resync"}, {"filter-crd-known", "reload"}, {"filter-crd-unknown", "bind"}} {
+		{"filter-crd-unknown", "resync"}, {"filter-crd-known", "reload"}, {"filter-crd-unknown", "bind"},
+		{"filter-crd-known", "filter-crd-fresh"}, {"filter-crd-fresh", "filter-crd-fresh"}, {"filter-crd-fresh", "filter-crd-unknown"},
+		{"unbind-crd-known", "unbind-crd-fresh"}, {"unbind-crd-fresh", "filter-crd-known"}} {
 		out = append(out, mk(pr))
 	}
 	triples := [][]string{{"filter", "bind", "unbind"}, {"filter-crd-known", "filter-crd-unknown", "filter-crd-known"}, {"filter", "resync", "reload"}, {"bind", "release", "resync"}, {"pool", "filter", "preempt"}, {"reload", "collect", "bind"},
